@@ -33,6 +33,25 @@ def _base(kind, case):
             "after_sampling": [], "have_after_sampling": False}
 
 
+class _InjectedFault(Exception):
+    pass
+
+
+_FAULT = {"at": None, "n": 0}     # crash point: the k-th call of a user callable raises (once)
+
+
+def _faulty(fn):
+    """a user callable that raises at the armed call (Loaders!TryCandidate .. Restore: the aborted construction is caught by the caller)"""
+    def g(*a, **k):
+        if _FAULT["at"] is not None:
+            _FAULT["n"] += 1
+            if _FAULT["n"] >= _FAULT["at"]:
+                _FAULT["at"] = None
+                raise _InjectedFault("user callable raised (injected crash point)")
+        return fn(*a, **k)
+    return g
+
+
 _HELD = []      # the last few loader objects with the table they reported when they were built
 
 
@@ -47,8 +66,24 @@ def _earlier_unchanged(tr):
             tr["earlier_changed"] = True
 
 
-def _history(tr, build_direct, build_entry, den_of, deterministic=True):
+def _history(tr, build_direct, build_entry, den_of, deterministic=True, on_pre_done=None):
     """first / second / entry tables"""
+    k_fault = tr["case"].get("pre_fault")
+    if k_fault:
+        # history: an earlier construction with the SAME callables / inputs was aborted by the k-th callback call raising
+        _FAULT.update({"at": k_fault, "n": 0})
+        try:
+            with watchdog(30):
+                build_direct()
+        except _InjectedFault:
+            tr["pre_aborted"] = True
+        except Timeout:
+            raise
+        except Exception:
+            pass
+        _FAULT["at"] = None
+        if on_pre_done:
+            on_pre_done()
     try:
         with watchdog(30):
             obj = build_direct()
@@ -133,7 +168,7 @@ def run_function(case):
     tr = _base("function", case)
     tr["cells"] = [{"key": list(k), "w": w} for k, w in case["cells"]]
     tr["bounds"] = [list(b) for b in case["bounds"]]
-    p = {JN.FP: (lambda jd: cells[tuple(jd)] / D), JN.MOTIF_SIZES: case["sizes"],
+    p = {JN.FP: _faulty(lambda jd: cells[tuple(jd)] / D), JN.MOTIF_SIZES: case["sizes"],
          JN.LOW_HIGH_DEGREE_BOUND: [tuple(b) for b in case["bounds"]]}
     _history(tr, lambda: gcmpy.JointDegreeFunction(dict(p)),
              lambda: gcmpy.JointDegreeDistribution.load_joint_degree({**p, JN.JOINT_DEGREE_TYPE: "function"}),
@@ -147,7 +182,7 @@ def _marginal_params(case, extra=None):
     dens = case["dens"]
     # un-normalised marginals may be tiny in absolute terms (Boltzmann-type weights): an exact power of two keeps every ratio exact
     fscale = 2.0 ** -case.get("fscale_pow", 0)
-    fps = [(lambda k, i=i: F[i].get(int(k), 0) / dens[i] * fscale) for i in range(len(F))]
+    fps = [_faulty(lambda k, i=i: F[i].get(int(k), 0) / dens[i] * fscale) for i in range(len(F))]
     if case.get("shared_callable"):
         # the SAME callable object serves every topology (requires identical tables, as the case builder guarantees)
         fps = [fps[0]] * len(F)
@@ -306,7 +341,7 @@ def run_split(case):
         return SumF * sumw[k] if (not delta or k == tgt) else SumF
     tr = _base("delta" if delta else "split", case)
     tr.update({"a": a, "lo": lo, "hi": hi, "target": tgt, "delta": delta, "f": frel, "steps": [], "sum_ok": True})
-    p = {JN.FP: (lambda k: fabs[k - 1] / Fden), JN.PROBS: [x / b for x in a], JN.MOTIF_SIZES: list(range(2, T + 2)),
+    p = {JN.FP: _faulty(lambda k: fabs[k - 1] / Fden), JN.PROBS: [x / b for x in a], JN.MOTIF_SIZES: list(range(2, T + 2)),
          JN.LOW_HIGH_DEGREE_BOUND: (lo, hi)}
     if delta:
         p[JN.TARGET_K] = tgt
@@ -326,7 +361,8 @@ def run_split(case):
     try:
         obj = _history(tr, lambda: cls(dict(p)),
                        lambda: gcmpy.JointDegreeDistribution.load_joint_degree(
-                           {**p, JN.JOINT_DEGREE_TYPE: "delta" if delta else "split_degree"}), den_of)
+                           {**p, JN.JOINT_DEGREE_TYPE: "delta" if delta else "split_degree"}), den_of,
+                       on_pre_done=lambda: steps.__delitem__(slice(None)))
         tr["steps"] = steps[:hi - lo] if not delta else steps[:1]
         if obj is not None:
             tr["sum_ok"] = abs(sum(obj.jdd.values()) - 1.0) < 1e-9
@@ -350,6 +386,27 @@ def run_cover(case):
                    lambda key: len(verts))
     if obj is None:
         return tr
+    if case.get("reject"):
+        # crash point: a malformed candidate cover goes in through the setter, create_jdd raises, the caller puts the previous
+        # cover back and keeps the loader (Loaders!TryCandidate / CreateJdd raises / Restore): everything it reports is as before
+        base = min(verts)
+        bad = {1: [[base, base + 1, base + 2], [base + 2, base + 3], [base + 3, base + 40]],      # a typo in a vertex id
+               2: [],                                                                              # no cliques at all
+               3: [list(range(base + 1, base + 7)), [base + 6, base + 7, base + 9]]}[case["reject"]]   # larger cliques, id gap
+        try:
+            previous = obj.cover
+            obj.cover = bad
+            try:
+                obj.create_jdd()
+                obj.cover = previous          # accepted after all: nothing to say about an illegal cover; rebuild the legal one
+                obj.create_jdd()
+            except Exception:
+                obj.cover = previous
+                tr["rejected"] = True
+            tr["first"] = _table(obj.jdd, lambda key: len(verts))
+        except Exception as ex:
+            tr["raised"] = "%s: %s" % (type(ex).__name__, str(ex)[:70])
+            return tr
     try:
         tr["motif_sizes"] = [int(s) for s in obj.motif_sizes]
     except Exception:
